@@ -1607,7 +1607,7 @@ class Transaction(object):
         r_witness = b''
         for i in self.inputs:
             r += i.prev_txid[::-1] + i.output_n[::-1]
-            if i.witnesses and i.witness_type != 'legacy':
+            if i.witnesses:
                 r_witness += int_to_varbyteint(len(i.witnesses)) + b''.join([bytes(varstr(w)) for w in i.witnesses])
             else:
                 r_witness += b'\0'
